@@ -3,7 +3,7 @@
    position, split_to / trim_to are called within bounds, next_item is only
    called once the token has been read to its end. *)
 From Coq Require Import NArith ZArith List Bool Arith Lia ZifyN ZifyBool ZifyNat.
-From DV Require Import Base.Outcome Base.Bytes C07.Gen C07.Model C07.Proofs.
+From DV Require Import Base.Outcome Base.Bytes C07.Gen C07.Model C07.Proofs C07.Proofs2 C07.Proofs3.
 Import ListNotations.
 Local Open Scope N_scope.
 
@@ -150,3 +150,23 @@ Lemma limits_rfc1035 :
   default_ttl = 3600 /\ init_start = 1%nat /\
   octet_lo = 32 /\ octet_hi = 126 /\ esc_char = 92.
 Proof. vm_compute. repeat split; reflexivity. Qed.
+
+(* The four guards are in the source now.  These statements hold only while
+   T1 finds them; removing one of them from the Rust code makes this file fail
+   to build (and flips the `_fixed` theorems back to `_refuted`). *)
+Lemma reader_guards_present :
+  overlong_rejected = true /\ int_add_checked = true /\ ttl_add_checked = true /\
+  charstr_requires_token = true /\ scan_name_handles_at = true.
+Proof. vm_compute. repeat split; reflexivity. Qed.
+
+Theorem items_total_all file :
+  match snd (items_of file) with EEof | EErr _ => True | _ => False end.
+Proof. apply Proofs2.items_total. apply reader_guards_present. Qed.
+
+Theorem scan_uint_no_overflow_panic : forall fuel maxv s res,
+  uint_loop fuel maxv int_add_checked s res <> Panic 7 /\
+  uint_loop fuel maxv ttl_add_checked s res <> Panic 7.
+Proof.
+  intros. destruct reader_guards_present as (_ & -> & -> & _).
+  split; apply Proofs3.uint_loop_no_overflow_panic.
+Qed.
